@@ -73,6 +73,148 @@ pub(crate) fn default_caps(asn: u32, families: &[Family]) -> Vec<packet::Capabil
     caps
 }
 
+/// Independent walk of what an UPDATE carries, written from the RFCs and not from the repository's
+/// codec (which the speaker uses on both ends, so that a mistake mirrored in encoder and decoder
+/// agrees with itself): prefix lengths of the legacy fields, and for MP_REACH_NLRI / MP_UNREACH_NLRI
+/// the next-hop length the address family allows (RFC 4760, 2545, 4364, 4659, 8277, 7432, 7752, 8950)
+/// and, for unicast, labeled and VPN families, NLRI that tile the attribute.
+/// `addpath(afi, safi)` tells whether path identifiers are expected; `ext_nh` whether RFC 8950 was
+/// negotiated.
+pub(crate) fn walk_update(f: &[u8], addpath: &dyn Fn(u16, u8) -> bool, ext_nh: bool) -> Result<(), String> {
+    let len = f.len();
+    if len < 23 || f[18] != 2 {
+        return Ok(());
+    }
+    let wl = u16::from_be_bytes([f[19], f[20]]) as usize;
+    let al = u16::from_be_bytes([f[21 + wl], f[22 + wl]]) as usize;
+    // prefixes of a plain IPv4 field
+    let v4_field = |b: &[u8], what: &str| -> Result<(), String> {
+        let ap = addpath(1, 1);
+        let mut i = 0;
+        while i < b.len() {
+            if ap {
+                if i + 4 > b.len() {
+                    return Err(format!("{}: path identifier overruns the field", what));
+                }
+                i += 4;
+            }
+            if i >= b.len() {
+                return Err(format!("{}: prefix length octet missing", what));
+            }
+            let bits = b[i] as usize;
+            if bits > 32 {
+                return Err(format!("{}: IPv4 prefix length {}", what, bits));
+            }
+            i += 1 + bits.div_ceil(8);
+            if i > b.len() {
+                return Err(format!("{}: prefix overruns the field", what));
+            }
+        }
+        Ok(())
+    };
+    v4_field(&f[21..21 + wl], "withdrawn routes")?;
+    v4_field(&f[23 + wl + al..], "NLRI")?;
+    // NLRI of unicast (SAFI 1, 2), labeled (4) and VPN (128) families
+    let nlri_field = |afi: u16, safi: u8, b: &[u8], reach: bool| -> Result<(), String> {
+        let max_bits = match afi {
+            1 => 32usize,
+            2 => 128,
+            _ => return Ok(()),
+        };
+        if !matches!(safi, 1 | 2 | 4 | 128) {
+            return Ok(());
+        }
+        let ap = addpath(afi, safi);
+        let mut i = 0;
+        while i < b.len() {
+            if ap {
+                if i + 4 > b.len() {
+                    return Err(format!("AFI {} SAFI {}: path identifier overruns the NLRI field", afi, safi));
+                }
+                i += 4;
+            }
+            if i >= b.len() {
+                return Err(format!("AFI {} SAFI {}: length octet missing", afi, safi));
+            }
+            let bits = b[i] as usize;
+            let bytes = bits.div_ceil(8);
+            if i + 1 + bytes > b.len() {
+                return Err(format!("AFI {} SAFI {}: NLRI of {} bits overruns the field", afi, safi, bits));
+            }
+            let body = &b[i + 1..i + 1 + bytes];
+            let mut fixed = 0usize; // bits in front of the prefix
+            if safi == 4 || safi == 128 {
+                // label stack: in MP_REACH up to the bottom-of-stack bit; in MP_UNREACH one 3-octet field (RFC 8277 2.4)
+                let mut k = 0;
+                loop {
+                    if 3 * (k + 1) > body.len() {
+                        return Err(format!("AFI {} SAFI {}: label stack overruns a {}-bit NLRI", afi, safi, bits));
+                    }
+                    let bos = body[3 * k + 2] & 1 != 0;
+                    k += 1;
+                    if bos || !reach {
+                        break;
+                    }
+                }
+                fixed += 24 * k;
+                if safi == 128 {
+                    fixed += 64;
+                }
+            }
+            if bits < fixed || bits - fixed > max_bits {
+                return Err(format!("AFI {} SAFI {} ({}): {} bits with {} bits of labels / distinguisher leave a prefix of {} bits", afi, safi, if reach { "reach" } else { "unreach" }, bits, fixed, bits as i64 - fixed as i64));
+            }
+            i += 1 + bytes;
+        }
+        Ok(())
+    };
+    let mut i = 23 + wl;
+    let end = 23 + wl + al;
+    while i + 3 <= end {
+        let flags = f[i];
+        let code = f[i + 1];
+        let (alen, hdr) = if flags & 0x10 != 0 { (u16::from_be_bytes([f[i + 2], f[i + 3]]) as usize, 4) } else { (f[i + 2] as usize, 3) };
+        let v = &f[(i + hdr).min(end)..(i + hdr + alen).min(end)];
+        match code {
+            14 => {
+                if v.len() < 5 {
+                    return Err("MP_REACH_NLRI shorter than 5 octets".into());
+                }
+                let afi = u16::from_be_bytes([v[0], v[1]]);
+                let safi = v[2];
+                let nhl = v[3] as usize;
+                if 4 + nhl + 1 > v.len() {
+                    return Err(format!("MP_REACH_NLRI AFI {} SAFI {}: next hop of {} octets overruns the attribute", afi, safi, nhl));
+                }
+                let ok: &[usize] = match (afi, safi) {
+                    (1, 1) | (1, 2) | (1, 4) => if ext_nh { &[4, 16, 32] } else { &[4] },
+                    (1, 128) => if ext_nh { &[12, 24, 48] } else { &[12] },
+                    (2, 1) | (2, 2) | (2, 4) => &[16, 32],
+                    (2, 128) => &[24, 48],
+                    (25, 70) | (16388, 71) | (16388, 72) | (1, 73) | (2, 73) | (1, 132) | (1, 85) | (2, 85) => &[4, 16, 32],
+                    _ => &[],
+                };
+                if !ok.is_empty() && !ok.contains(&nhl) {
+                    return Err(format!("MP_REACH_NLRI AFI {} SAFI {}: next hop of {} octets (allowed {:?})", afi, safi, nhl, ok));
+                }
+                if matches!((afi, safi), (1, 128) | (2, 128)) && v[4..12].iter().any(|b| *b != 0) {
+                    return Err("VPN next hop: route distinguisher is not zero".into());
+                }
+                nlri_field(afi, safi, &v[4 + nhl + 1..], true)?;
+            }
+            15 => {
+                if v.len() < 3 {
+                    return Err("MP_UNREACH_NLRI shorter than 3 octets".into());
+                }
+                nlri_field(u16::from_be_bytes([v[0], v[1]]), v[2], &v[3..], false)?;
+            }
+            _ => {}
+        }
+        i += hdr + alen;
+    }
+    Ok(())
+}
+
 /// Independent RFC 4271 frame check (marker, length range, type, UPDATE section lengths).
 pub(crate) fn walk_frame(f: &[u8], max_len: usize) -> Result<u8, String> {
     if f.len() < 19 {
@@ -338,6 +480,14 @@ impl Speaker {
                 }
             };
             self.frames.push(FrameRec { t_ms: now_ms, kind, len });
+            if kind == 2 && self.negotiated {
+                let ext_nh = self.caps.iter().any(|c| matches!(c, packet::Capability::ExtendedNexthop(_))) && self.dut_open.as_ref().is_some_and(|o| o.capability.iter().any(|c| matches!(c, packet::Capability::ExtendedNexthop(_))));
+                let codec = &self.codec;
+                let ap = |afi: u16, safi: u8| codec.family_state(Family::new(afi, safi)).is_some_and(|s| s.addpath_rx);
+                if let Err(e) = walk_update(&frame, &ap, ext_nh) {
+                    self.framing_errors.push(format!("UPDATE content: {}", e));
+                }
+            }
             let mut b = BytesMut::from(&frame[..]);
             match self.codec.try_parse(&mut b) {
                 Ok(Some(parsed)) => self.on_parsed(parsed, now_ms),
